@@ -34,13 +34,13 @@ var inits = []initState{
 		// head holds offsets 0,1 and is full: the next publish rolls over
 		name: "full-head", init: []string{"P:0/1/u", "P:1/1/u"}, next: 2,
 		calls: []string{"Publish:1", "Publish:2", "Consume:-2,40", "Consume:1,40", "Consume:2,40", "ConsumeByKey:0,-2,40", "Get:1", "Get:2", "Get:-1", "GetByKey:0", "GetByKey:1",
-			fmt.Sprintf("GetByTime:%d", t1+1), "Delete:0", "Delete:1", "Delete:0,1", "Sync", "NextOffset", "Stat", "GC:0"},
+			fmt.Sprintf("GetByTime:%d", t1+1), fmt.Sprintf("GetByTime:%d", t1-5), "Delete:0", "Delete:1", "Delete:0,1", "Sync", "NextOffset", "Stat", "GC:0"},
 	},
 	{
 		// segments [0,1] (loaded) [2,3] (unloaded) and head [4]
 		name: "two-readers", init: []string{"P:0/1/u", "P:1/1/u", "P:0/1/u", "P:1/1/u", "P:0/1/u", "L", "G:0", "R:", "Get0"}, next: 5,
 		calls: []string{"Publish:1", "Consume:-2,40", "Consume:2,40", "Consume:5,40", "ConsumeByKey:1,-2,40", "Get:0", "Get:3", "Get:4", "GetByKey:1",
-			fmt.Sprintf("GetByTime:%d", t1+2), "Delete:4", "Delete:2", "Delete:0,1", "Delete:3,4", "Sync", "NextOffset", "Stat", "GC:0"},
+			fmt.Sprintf("GetByTime:%d", t1+2), fmt.Sprintf("GetByTime:%d", t1-5), fmt.Sprintf("GetByTime:%d", t1+9), "Delete:4", "Delete:2", "Delete:0,1", "Delete:3,4", "Sync", "NextOffset", "Stat", "GC:0"},
 	},
 }
 
